@@ -110,7 +110,7 @@ Proof.
   - apply IH in H; [exact H| |]; destruct (br_ops w3 b1 []) as (_ & E2 & _); rewrite E2, PB; assumption.
   - injection H as E1 _; rewrite <- E1. destruct (br_ops w3 b1 [cand]) as (_ & _ & _ & E2). rewrite E2, PB. exact HB1.
   - injection H as E1 _; rewrite <- E1. destruct (has_best w3); [rewrite PB; exact HB1|].
-    destruct (br_ops w3 b1 []) as (_ & _ & _ & E2). rewrite E2, PB. exact HB1.
+    destruct (br_ops (restore w3) b1 []) as (_ & _ & _ & E2). destruct (br_ops w3 b1 []) as (_ & E3 & _). rewrite E2, E3, PB. exact HB1.
   - cbv zeta in H. injection H as E1 _; rewrite <- E1.
     match goal with |- BW (w_br (set_br ?x ?y)) => destruct (br_ops x y []) as (_ & _ & E2 & _); rewrite E2 end.
     rewrite ?(proj1 (proj2 (br_ops w3 b1 []))), PB.
@@ -139,8 +139,8 @@ Proof.
   destruct r; cbv zeta in H.
   - apply IH in H; [exact H|]. destruct (br_ops w3 b1 []) as (_ & E2 & _). rewrite E2, PB. exact HB1.
   - injection H as E1 _; rewrite <- E1. destruct (br_ops w3 b1 [cand]) as (_ & _ & _ & E2). rewrite E2, PB. exact HB1.
-  - assert (E2 : w_br (if has_best w3 then w3 else mark_best w3 []) = b1).
-    { destruct (has_best w3); [exact PB|]. destruct (br_ops w3 b1 []) as (_ & _ & _ & E2). rewrite E2. exact PB. }
+  - assert (E2 : w_br (if has_best w3 then w3 else mark_best (restore w3) []) = b1).
+    { destruct (has_best w3); [exact PB|]. destruct (br_ops (restore w3) b1 []) as (_ & _ & _ & E2). destruct (br_ops w3 b1 []) as (_ & E3 & _). rewrite E2, E3. exact PB. }
     destruct (policy_never _); [injection H as E1 _; rewrite <- E1; rewrite E2; exact HB1|]. apply (G _ (or_introl E2) H).
   - destruct (br_ops (restore w3) (mark_word_unused (w_br (restore w3))) []) as (_ & _ & E2 & _).
     destruct (br_ops w3 b1 []) as (_ & E3 & _). rewrite E3, PB in *.
